@@ -201,7 +201,7 @@ def gen_random(rng, index):
     return {"property": PROP, "kind": "random", "index": index,
             "mode": mode, "zones": zones, "cur": rng.randrange(nzones),
             "isdst": rng.choice([0, 1]), "start_us": start_us,
-            "steps": steps}
+            "with_gmtoff": rng.random() < 0.5, "steps": steps}
 
 
 def gen_grid(rng, index):
@@ -210,6 +210,10 @@ def gen_grid(rng, index):
     (index -> standard offset) that random runs only sample."""
     std = ((index * 7) % 2881) - 1440          # coprime stride covers all
     dst = max(-1440, min(1440, std + [60, 30, -60, 1, -1, 0][index % 6]))
+    if (index // 2881) % 3 == 1:
+        dst = 0         # daylight time exactly UTC (Azores, Casablanca)
+    elif (index // 2881) % 3 == 2:
+        dst = -std      # standard and daylight offsets of opposite sign
     zones = [(-60 * std, -60 * dst, 1), (-60 * dst, -60 * dst, 0)]
     steps = []
     for isdst in (0, 1):
@@ -232,6 +236,7 @@ def gen_grid(rng, index):
                                         "basic", 0]})
         steps.append({"k": "pert", "act": ["tzset", 0]})
     return {"property": PROP, "kind": "grid", "index": index,
+            "with_gmtoff": index % 2 == 0,
             "mode": "gregorian", "zones": zones, "cur": 0, "isdst": 0,
             "start_us": (946684800 + index * 86400) * 10 ** 6, "steps": steps}
 
@@ -731,7 +736,8 @@ class Sim(object):
         trace = self.trace
         clock = world.SimClock(trace["start_us"])
         self.facade = world.TimeFacade(clock, trace["zones"], trace["cur"],
-                                       trace["isdst"])
+                                       trace["isdst"],
+                                       trace.get("with_gmtoff", True))
         world.install_time(self.facade)
         world.set_env(world.ENV_CAL, None)
         world.set_env(world.ENV_REF, None)
